@@ -14,7 +14,11 @@ sc_shmem.c
                                             needs unlock, THEN the barrier on intranode, THEN the exclusive lock of intrarank 0
   write_end_window                          the same: who unlocks, then the barrier on intranode, then the shared lock
   scan_index_<type> / scan_add_<type>       sc_scan_on_array: the two slot indices and the wrapped sum, for the eight integer types
-  prefix_basic / prefix_prescan / prefix_common / prefix_common_prescan / allgather_common
+  allgather_basic / allgather_common        sc_shmem_allgather has separate send and receive signatures: every argument of the MPI_Allgather
+                                            (basic), of sc_mpi_sizeof, sc_malloc, MPI_Gather on the node and MPI_Allgather between the nodes
+                                            (window) as a function of (sendcount, sendtype, recvcount, recvtype, intrasize, typesize, comm,
+                                            intranode, internode): which of them enters which argument
+  prefix_basic / prefix_prescan / prefix_common / prefix_common_prescan
                                             byte counts and offsets: memset size, offset of slot 1 (count * typesize), buffer of the
                                             node root (intrasize * count * typesize), counts of the Gather / Allgather calls
 coq/C14/ShmemGen.v proves that the hand-written model (ShmemModel.v) uses exactly these.
@@ -208,9 +212,35 @@ def register(GROUPS, c2g, incs, REPO, HERE, STRUCTS, Group):
         args_of("sc_shmem_prefix_prescan", SC, (2,))
         args_of("sc_shmem_prefix_prescan", ("memset",), (2,))
         args_of("sc_shmem_prefix_prescan", AG, (1, 3, 4))
-        args_of("sc_shmem_allgather_common", ("sc_malloc",), (1,))
-        args_of("sc_shmem_allgather_common", GA, (1, 4, 6))
-        args_of("sc_shmem_allgather_common", AG, (1, 4))
+        # sc_shmem_allgather has separate send and receive signatures: every argument of the calls is a function of ALL of
+        # (sendcount, sendtype, recvcount, recvtype, intrasize, typesize, comm, intranode, internode), in this order, so that the
+        # theorems say WHICH of them enters which argument (a free variable outside this list fails the group)
+        SIGP = ("sendcount", "sendtype", "recvcount", "recvtype", "intrasize", "typesize", "comm", "intranode", "internode")
+
+        def sig_args(cfn, callee_names, which):
+            F = fn(fs, cfn)
+            calls = sl.find_nodes(F, lambda n: n.get("kind") == "CallExpr" and sl.callee_name(n) in callee_names)
+            if len(calls) != 1:
+                raise c2g.Unsupported("%s: %d calls of %s, expected 1" % (cfn, len(calls), "/".join(callee_names)))
+            short = callee_names[-1].replace("sc_mpi_", "").replace("sc_", "").replace("MPI_", "").lower()
+            for k_ in which:
+                t, i = sl.emit_expr(calls[0]["inner"][1 + k_], "%s_%s_arg%d" % (cfn.replace("sc_shmem_", ""), short, k_), cfn,
+                                    params=SIGP, want_params=list(SIGP))
+                g.add(t, i)
+        sig_args("sc_shmem_allgather_basic", AG, (1, 2, 4, 5, 6))
+        sig_args("sc_shmem_allgather_common", ("sc_mpi_sizeof",), (0,))
+        sig_args("sc_shmem_allgather_common", ("sc_malloc",), (1,))
+        sig_args("sc_shmem_allgather_common", GA, (1, 2, 4, 5, 6, 7))
+        sig_args("sc_shmem_allgather_common", AG, (1, 2, 4, 5, 6))
+        # typesize is what sc_mpi_sizeof returned, and nothing else
+        F = fn(fs, "sc_shmem_allgather_common")
+        asg = sl.find_nodes(F, lambda n: n.get("kind") == "BinaryOperator" and n.get("opcode") == "=" and
+                            sl.strip(n["inner"][0]).get("referencedDecl", {}).get("name") == "typesize")
+        if len(asg) != 1 or sl.callee_name(sl.strip(asg[0]["inner"][1])) != "sc_mpi_sizeof":
+            raise c2g.Unsupported("sc_shmem_allgather_common: typesize is not assigned exactly once from sc_mpi_sizeof")
+        asg = sl.find_nodes(F, lambda n: n.get("kind") == "CallExpr" and sl.callee_name(n) in ("sc_MPI_Comm_size", "MPI_Comm_size"))
+        if len(asg) != 1 or sl.refs(asg[0]["inner"][1]) != {"intranode"} or sl.refs(asg[0]["inner"][2]) != {"intrasize"}:
+            raise c2g.Unsupported("sc_shmem_allgather_common: intrasize is not the size of intranode")
         args_of("sc_shmem_prefix_common", ("sc_malloc",), (1,))
         args_of("sc_shmem_prefix_common", GA, (1, 4, 6))
         args_of("sc_shmem_prefix_common", ("memset",), (2,))
